@@ -27,7 +27,8 @@ import numpy as np
 import warnings
 
 from holopy.scattering.scatterer import Sphere, Spheroid, Cylinder
-from holopy.scattering.errors import TheoryNotCompatibleError, TmatrixFailure
+from holopy.scattering.errors import (
+    TheoryNotCompatibleError, TmatrixFailure, InvalidScatterer)
 from holopy.core.errors import DependencyMissing
 from holopy.scattering.theory.scatteringtheory import ScatteringTheory
 try:
@@ -108,8 +109,19 @@ class Tmatrix(ScatteringTheory):
         eps = rxy/rz
         NP = -1 - int(iscyl)
         ndgs = 5
-        alpha = scatterer.rotation[2] * 180 / np.pi
-        beta = scatterer.rotation[1] * 180 / np.pi
+        # The Fortran code calls STOP (which terminates the interpreter) for
+        # sizes beyond its array limit (NPN1 = 200) and for angles outside
+        # [0, 360] x [0, 180], so reject / normalize those here.
+        size = 2 * np.pi * axi / lam
+        if size + 4.05 * size**0.333333 >= 200:
+            raise InvalidScatterer(
+                scatterer, "too large for the T-matrix calculation")
+        alpha = (scatterer.rotation[2] * 180 / np.pi) % 360
+        beta = (scatterer.rotation[1] * 180 / np.pi) % 360
+        if beta > 180:
+            # the same symmetry-axis direction, with polar angle in [0, 180]
+            alpha = (alpha + 180) % 360
+            beta = 360 - beta
 
         # FIXME: Why does the incident polarization have to be set to  (1, 0)?
         thet0 = 0
